@@ -8,7 +8,23 @@ use crate::opt::Opt;
 use textwrap::core::display_width as dw;
 
 fn sizes(ctx: &Ctx) -> Vec<usize> {
-    if ctx.thorough { vec![70, 1_100, 2_100, 10_100, 41_000, 100_000] } else { vec![70, 1_100, 10_100] }
+    let mut v = if ctx.thorough { vec![70, 1_100, 2_100, 10_100, 41_000, 100_000] } else { vec![70, 1_100, 10_100] };
+    // sizes just above the numbers the code under test mentions (`gen::dict`): limits, block sizes
+    // and fall-back thresholds — at most ten (quick) / twenty-four (thorough), spread over the range
+    let cap = if ctx.thorough { 120_000 } else { 20_000 };
+    let cand: Vec<usize> = crate::gen::dict().numbers.iter().copied().filter(|n| *n >= 60 && *n <= cap).collect();
+    let want = if ctx.thorough { 24 } else { 10 };
+    let step = (cand.len() + want - 1) / want.max(1);
+    for (i, n) in cand.iter().rev().enumerate() {
+        if step <= 1 || i % step == 0 {
+            let m = n + 1 + (n / 64); // beyond the number itself and beyond an off-by-a-few
+            if !v.iter().any(|x| *x >= m && *x <= m + m / 10) {
+                v.push(m);
+            }
+        }
+    }
+    v.sort();
+    v
 }
 
 const WORDS: &[&str] = &["a", "to", "the", "that", "being", "x-y", "wrapped", "question", "é", "Ｈi", "well-known"];
